@@ -12,7 +12,8 @@ CORPUS = os.path.join(VERIF, "corpus", "C16.json")
 ASSUMPTIONS = [
     "names (node-label names, edge-label names, explicit ids) are rendered as strings 'L<n>', 'X<n>', 'n<n>', 'd<n>'; the model treats them as naturals",
     "implicit ids (Python id(self)) are numbered in construction order; the harness keeps every Node/Edge alive so that CPython never re-uses an address",
-    "FiniteDomain = its value list; FiniteFactor = its domains and a constant weight tensor (tag); weights are not mutated by the modelled API",
+    "FiniteDomain = its value list; FiniteFactor = its domains and a constant weight tensor (tag, a small natural: exact in float32; a tensor that is not constant is observed as 999, which no model state shows)",
+    "in-place weight updates (UpdWeights) are: every entry := v (physical.fill_, copy_, physical[...] = v, the weights setter with a new tensor, w *= 0 then physical.add_) or every entry *= c (weights *= c, physical.mul_, weights *= PatternedTensor, weights /= 1/c for c = 1, 2, 4); the model ignores the route (via); domains are not mutated in place (no public API)",
     "HRGRule objects are only ever built by the harness immediately before add_rule (their fields are not reassigned); ext= is always given a tuple",
     "calls on a handle of the wrong class are modelled as 'OtherExc' (AttributeError) and generated only for method calls, not for attribute assignment",
 ]
@@ -23,6 +24,9 @@ NIDS = [0, 1, 2, 3]
 EIDS = [0, 1, 2]
 DOMS = [[0, 1], [0, 1, 2]]
 TAGS = [0, 1]
+FILLS = [0, 1, 2, 3, 5, 7]      # WFill values
+MULS = [0, 2, 3]                # WMul factors
+MAX_TAG = 400                   # weights stay small integers (exact in float32; 999 = "not constant")
 MAX_OBJS = 7
 
 # ------------------------------------------------------------------------------- random sequences
@@ -31,8 +35,8 @@ class SeqGen:
     implementation to make most calls meaningful.  avoid=True steers clear of the one known
     finding that destroys well-formedness (mutating a graph that a grammar uses as a rhs), so
     that every later step is still judged by wf_b."""
-    def __init__(self, rng, avoid, p_fail=0.3):
-        self.rng, self.avoid, self.p_fail = rng, avoid, p_fail
+    def __init__(self, rng, avoid, p_fail=0.3, focus=0.0):
+        self.rng, self.avoid, self.p_fail, self.focus = rng, avoid, p_fail, focus
         self.ex = U.Exec()
         self.ops, self.trace = [], []
         self.obs = []
@@ -92,6 +96,9 @@ class SeqGen:
     # -- op choice
     def choose(self):
         r = self.rng
+        if self.focus and r.random() < self.focus:
+            op = self.choose_weights()
+            if op is not None: return op
         fail = r.random() < self.p_fail
         n = len(self.obs)
         if n == 0 or (n < MAX_OBJS and r.random() < (0.5 if n < 2 else 0.08)):
@@ -113,8 +120,8 @@ class SeqGen:
         nodes, edges, ext = g[0][1], g[0][2], g[0][3]
         kinds = ["AddNode", "NewNode", "AddEdge", "AddEdge", "NewEdge", "NewEdge", "RemoveNode", "RemoveEdge",
                  "SetExt", "Copy", "AddNodeLabel", "AddEdgeLabel", "EqOp", "MkRule"]
-        if fg: kinds += ["AddDomain", "NewFiniteDomain", "AddFactor", "NewFiniteFactor", "NewFiniteFactor"]
-        elif fail and r.random() < 0.1: kinds = ["AddDomain"]
+        if fg: kinds += ["AddDomain", "NewFiniteDomain", "AddFactor", "NewFiniteFactor", "NewFiniteFactor", "UpdWeights", "UpdWeights"]
+        elif fail and r.random() < 0.1: kinds = [r.choice(["AddDomain", "UpdWeights"])]
         k = r.choice(kinds)
         rhs = self.is_rhs(h)
         if self.avoid and rhs and k in ("AddEdge", "NewEdge", "SetExt"): k = "AddNode"
@@ -201,9 +208,48 @@ class SeqGen:
             return ("MkRule", (elabel(r.choice(ENAMES), ty, False), h))
         return self.choose_interp(h, g[1], g[2], k, fail)
 
+    def upd_weights(self, h, interp, fail=False):
+        """an in-place update of the weights of a factor of object h that CHANGES them (so that
+        sharing with another object shows), by a random route; tags stay small (exact floats)"""
+        r = self.rng
+        facs = [(nm, f[1][1]) for nm, f in interp[1]]
+        if fail or not facs:
+            un = [x for x in ENAMES + [9] if x not in dict(facs)]
+            return ("UpdWeights", (h, r.choice(un), ("WFill", r.choice(FILLS)), r.randrange(8)))
+        nm, tag = r.choice(facs)
+        c = [("WFill", v) for v in FILLS if v != tag] + [("WMul", m) for m in MULS if tag * m != tag and tag * m <= MAX_TAG]
+        if r.random() < 0.1: c = [("WFill", tag), ("WMul", 1)]       # an update that changes nothing
+        return ("UpdWeights", (h, nm, r.choice(c), r.randrange(8)))
+
+    def choose_weights(self):
+        """the weights-focused chooser: build up objects that carry factors, copy them, update the
+        weights of copies and originals in place, look (==) -- or None when nothing applies"""
+        r = self.rng
+        c = [h for h, o in enumerate(self.obs) if o[1][0][0] in (1, 3)]
+        if not c:
+            return r.choice([("NewFactorGraph",), ("NewFGG", ("SName", r.choice(ENAMES)))])
+        withf = [h for h in c if self.obs[h][1][2][1]]
+        paired = [h for h in withf if any(h in p for p in self.pairs)]
+        x = r.random()
+        if withf and x < 0.5:
+            h = r.choice(paired if paired and r.random() < 0.7 else withf)
+            return self.upd_weights(h, self.obs[h][1][2])
+        if withf and x < 0.7 and len(self.obs) < MAX_OBJS:
+            return ("Copy", r.choice(withf))
+        h = r.choice(c)
+        o = self.obs[h][1]
+        doms = dict(o[2][0])
+        terms = [l for l in o[1][1] if U.el_term(l) and U.el_name(l) not in dict(o[2][1])]
+        if terms and all(x in doms for l in terms[:1] for x in U.el_ty(l)):
+            return self.choose_interp(h, o[1], o[2], r.choice(["AddFactor", "NewFiniteFactor"]), False)
+        if terms:
+            return ("AddDomain", (h, r.choice([x for x in U.el_ty(terms[0]) if x not in doms]), list(r.choice(DOMS))))
+        return ("AddEdgeLabel", (h, self.consistent_label(h, self.rand_label(term=True))))
+
     def choose_interp(self, h, views, interp, k, fail):
         r = self.rng
         doms = dict(interp[0])
+        if k == "UpdWeights": return self.upd_weights(h, interp, fail)
         if k in ("AddDomain", "NewFiniteDomain"):
             un = [l for l in NLS if l not in doms]
             if (fail and doms) or not un: l = r.choice(list(doms) or NLS)
@@ -236,7 +282,8 @@ class SeqGen:
         r = self.rng
         fgg = g[0][0] == 3
         kinds = ["AddRule", "AddRule", "NewRule", "NewRule", "SetStart", "AddNodeLabel", "AddEdgeLabel", "Copy", "EqOp"]
-        if fgg: kinds += ["AddDomain", "NewFiniteDomain", "AddFactor", "NewFiniteFactor"]
+        if fgg: kinds += ["AddDomain", "NewFiniteDomain", "AddFactor", "NewFiniteFactor", "UpdWeights", "UpdWeights"]
+        elif fail and r.random() < 0.05: kinds = ["UpdWeights"]
         k = r.choice(kinds)
         gs = self.graphs()
         if k in ("AddRule", "NewRule"):
@@ -358,6 +405,44 @@ def exhaustive(tier, maxlen=3):
                     if op[0] == "Copy": nobj += 1      # at least
                 if ok: yield pre + list(seq)
 
+# --- exhaustive histories of copies and in-place weight updates
+def weights_universe(tier):
+    """after the set-up: handles 0 (FactorGraph) and 1 (FGG, one rule whose rhs is graph 2) both
+    carry domain L0 and a factor X0 of constant weight 1; copies get the handles 3, 4, ..."""
+    ups = [(("WFill", 5), 0), (("WMul", 2), 0), (("WFill", 3), 3)]
+    if tier != "quick":
+        ups = [(("WFill", 5), v) for v in range(U.Exec.N_FILL)] + [(("WMul", 2), v) for v in range(U.Exec.N_MUL)] \
+              + [(("WFill", 0), 2), (("WMul", 0), 0)]
+    ops = [("Copy", 0), ("Copy", 1)]
+    for h in (0, 1, 3, 4, 5):    # 3 = the first copy; 4 / 5 = the second copy (or the copy of the rhs graph: raises)
+        ops += [("UpdWeights", (h, 0, u, v)) for u, v in ups]
+    if tier != "quick":
+        ops += [("Copy", 3), ("UpdWeights", (4, 0, ("WFill", 5), 0)), ("UpdWeights", (0, 1, ("WFill", 5), 0)),
+                ("NewFiniteFactor", (3, 1, [], 1)), ("EqOp", (0, 3)), ("EqOp", (1, 3))]
+    return ops
+
+def weights_prefix():
+    A = 0
+    fA = elabel(0, [A], True)
+    return [("NewFactorGraph",), ("NewFGG", ("SName", 2)), ("NewGraph",), ("NewRule", (1, 1, 2)),
+            ("AddDomain", (0, A, [0, 1])), ("AddDomain", (1, A, [0, 1])),
+            ("AddFactor", (0, fA, ("Fac", ([[0, 1]], 1)))), ("AddFactor", (1, fA, ("Fac", ([[0, 1]], 1))))]
+
+def exhaustive_weights(tier, maxlen=3):
+    """every history of <= maxlen copies / in-place weight updates (at least one update) after the
+    set-up; calls on handles that do not exist yet are left out"""
+    ops = weights_universe(tier)
+    pre = weights_prefix()
+    for n in range(1, maxlen + 1):
+        for seq in itertools.product(ops, repeat=n):
+            kinds = ["FG", "FGG", "G"]; ok = True; upd = False
+            for op in seq:
+                hs = [op[1]] if op[0] == "Copy" else list(op[1][:2]) if op[0] == "EqOp" else [op[1][0]]
+                if max(hs) >= len(kinds): ok = False; break
+                if op[0] == "Copy": kinds += ["FGG", "G"] if kinds[op[1]] == "FGG" else [kinds[op[1]]]
+                upd = upd or op[0] == "UpdWeights"
+            if ok and upd: yield pre + list(seq)
+
 # ------------------------------------------------------------------------------- corpus
 def load_corpus():
     if not os.path.exists(CORPUS): return []
@@ -427,11 +512,14 @@ def run(tier, seed):
     n_exh = 0
     for ops in exhaustive(tier):
         add(ops, "exhaustive"); n_exh += 1
+    n_wexh = 0
+    for ops in exhaustive_weights(tier):
+        add(ops, "exhaustive-weights"); n_wexh += 1
     n_rand = 700 if tier == "quick" else 40000
     hist = {}
     fails = steps = 0
     for i in range(n_rand):
-        g = SeqGen(rng, avoid=(i % 10 < 6))
+        g = SeqGen(rng, avoid=(i % 10 < 6), focus=(0.6 if i % 3 == 2 else 0.0))
         try:
             ops, tr = g.generate(rng.randint(1, 40))
         except Exception as e:
@@ -439,7 +527,7 @@ def run(tier, seed):
             violations.append(Violation("harness/implementation crashed outside the modelled exceptions: %r" % (e,),
                                         case=dict(ops=tolist(g.ops), origin="random"), corr="harness", failing_input_found=False))
             continue
-        cases.append((ops, tr, "random/%d%s" % (i, "/avoid" if g.avoid else "")))
+        cases.append((ops, tr, "random/%d%s%s" % (i, "/avoid" if g.avoid else "", "/weights" if g.focus else "")))
         for op, (r, _) in zip(ops, tr):
             hist[op[0]] = hist.get(op[0], 0) + 1
             steps += 1; fails += (r[0] == "RErr")
@@ -463,8 +551,9 @@ def run(tier, seed):
         if o.startswith("random"): lens[len(ops) // 10 * 10] = lens.get(len(ops) // 10 * 10, 0) + 1
     samp = [c for c in cases if c[2].startswith("random")]
     cov = dict(evaluations=len(cases), distinct_nontrivial=distinct,
-               rule="operation sequences over the small universe (3 node labels, 4 edge-label names x terminal/nonterminal x arity 0-2, 4 explicit node ids, 3 explicit edge ids, implicit ids, 2 domains, 2 factor tags): corpus of minimised failing sequences first; every sequence of <= 3 calls from a reduced universe of %d calls after 2 set-up calls (2 set-ups: Graph+HRG, FactorGraph+FGG; in the quick tier the second set-up only for sequences containing a copy); random sequences of 1-40 calls, ~30%% of calls designed to raise (re-used node ids, clashing labels, wrong types, duplicate ids, unmapped domains, ...), 60%% of the sequences steering clear of the one known well-formedness finding (mutating a graph used as a rule's rhs).  After EVERY call the full observable state of every live object and the result / exception kind are compared with the model and judged by wf_b, the atomicity oracle and the frame / copy oracle.  non-trivial = >= 3 calls, some graph ends up with a node, and some call raised or copied; distinct by the call sequence" % len(reduced_universe(tier)),
-               exhaustive_part="%d sequences" % n_exh, corpus_cases=n_corpus, random_sequences=n_rand,
+               rule="operation sequences over the small universe (3 node labels, 4 edge-label names x terminal/nonterminal x arity 0-2, 4 explicit node ids, 3 explicit edge ids, implicit ids, 2 domains, 2 factor tags, in-place weight updates fill(v in %s) / mul(c in %s) by 9 Python routes): corpus of minimised failing sequences first; every sequence of <= 3 calls from a reduced universe of %d calls after 2 set-up calls (2 set-ups: Graph+HRG, FactorGraph+FGG; in the quick tier the second set-up only for sequences containing a copy); every history of <= 3 calls (at least one in-place weight update) from %d calls {Copy of the FactorGraph / of the FGG, weight update of the original, of the first and of the second copy by several routes incl. the setter} after a set-up that gives a FactorGraph and an FGG (with a rule) a domain and a factor each; random sequences of 1-40 calls, ~30%% of calls designed to raise (re-used node ids, clashing labels, wrong types, duplicate ids, unmapped domains, weight updates of unbound names / of objects without factors, ...), 60%% of the sequences steering clear of the one known well-formedness finding (mutating a graph used as a rule's rhs); every third random sequence is weights-focused (60%% of its calls build objects with factors, copy them and update the weights of copies and originals in place, preferring objects that have a copy; an update always changes the weights except 10%% no-op updates).  After EVERY call the full observable state of every live object and the result / exception kind are compared with the model and judged by wf_b, the atomicity oracle and the frame / copy oracle.  non-trivial = >= 3 calls, some graph ends up with a node, and some call raised or copied; distinct by the call sequence" % (FILLS, MULS, len(reduced_universe(tier)), len(weights_universe(tier))),
+               exhaustive_part="%d sequences" % n_exh, exhaustive_weights_part="%d histories" % n_wexh,
+               weights_focused_random_sequences=sum(1 for c in cases if c[2].endswith("/weights")), corpus_cases=n_corpus, random_sequences=n_rand,
                random_steps=steps, random_steps_raising=fails, op_histogram=hist, random_length_histogram=lens,
                verdict_code_histogram=code_hist, kernel_reevaluated=nk, harness_crashes=crashes,
                samples=[dict(ops=tolist(c[0]), results=[tolist(r) for r, _ in c[1]]) for c in samp[:2]],
@@ -496,7 +585,7 @@ def replay(path):
 
 MANIFEST = dict(
     level="proof",
-    text="Coq state-machine model of the construction/mutation API of fggs/fggs.py (Graph, FactorGraph, HRG, FGG; step/observe/wf_b) with theorems: well-formedness is an invariant of every call, successful or raising, except successful mutations of a graph that a grammar uses as a rule's rhs (explicit guard; refuted without it: the grammar keeps a reference to the caller's graph); every raising call leaves all objects unchanged (unconditional); a copy is ==, shows exactly what its original shows (label tables, domains, factors, rules) and is frame-independent of it; == is an equivalence that separates objects differing in nodes, edges, ext, rules or start. The model is tied to /repo by running both on the same call sequences (corpus, exhaustive <= 3 calls, random 1-40 calls) and comparing the full observable state and result after every call; the extracted wf_b / atomicity / frame / copy oracles judge every implementation state.",
+    text="Coq state-machine model of the construction/mutation API of fggs/fggs.py (Graph, FactorGraph, HRG, FGG; step/observe/wf_b) with theorems: well-formedness is an invariant of every call, successful or raising, except successful mutations of a graph that a grammar uses as a rule's rhs (explicit guard; refuted without it: the grammar keeps a reference to the caller's graph); every raising call leaves all objects unchanged (unconditional); a copy is ==, shows exactly what its original shows (label tables, domains, factors, rules) and is frame-independent of it, in-place updates of factor weights included (UpdWeights: the copy owns its weights; C16_copy_update_weights); == is an equivalence that separates objects differing in nodes, edges, ext, rules or start. The model is tied to /repo by running both on the same call sequences (corpus, exhaustive <= 3 calls, exhaustive copy / in-place-weight-update histories, random 1-40 calls) and comparing the full observable state and result after every call; the extracted wf_b / atomicity / frame / copy oracles judge every implementation state.",
     note="Trusted: Coq kernel + vm_compute, extraction cross-checked on a sample, the Python executor that maps names and id()s to naturals. One known defect of /repo (rule rhs aliasing) is reported as KNOWN-FINDING through a specific predicate; the six classes repaired in /repo (349378f, 80c0f78, 068b525, 6c89611) are regression-checked: a recurrence is a VIOLATION.",
     technique="Coq proof (state-machine model + invariants) + model/implementation correspondence with verified oracles",
     design_ref="DESIGN.md section 6, C16")
